@@ -17,8 +17,8 @@
 (***************************************************************************)
 EXTENDS MC_Prepare, Json, TLCExt
 
-VARIABLES last, proj, hist
-gvars == <<S, last, proj, hist>>
+VARIABLES last, proj, hist, lost   \* lost: flights whose PREPARE was given up by PrepLost
+gvars == <<S, last, proj, hist, lost>>
 
 Act(a, e, f, k, kind) == [a |-> a, e |-> e, f |-> f, k |-> k, kind |-> kind]
 NoAct == Act("Init", "-", 0, NoKey, "-")
@@ -37,9 +37,13 @@ ExecKind(T, e) == IF FirstBad(T, T.ex[e].frame.ids) = 0 THEN "rows" ELSE "unprep
 \* Prepare.tla that is the same step as an ERROR answer (NodePrepareFail: the flight has failed); the harness
 \* can only do it when nothing else is outstanding on that connection.
 ConnOfKey(k) == <<k[1], k[2]>>
+\* Everybody who is executing on that connection would fail at his next request (the model has no dying
+\* connections): so the started, unfinished executors of the connection must all be waiting on this very flight
+\* - they get its failure - and no other PREPARE may be on its way there.
 QuietConn(T, f) ==
-  /\ \A g \in Flights(T) \ {f} : T.fl[g].st = "sent" => ConnOfKey(T.fl[g].key) # ConnOfKey(T.fl[f].key)
-  /\ \A e \in EX(T) : T.ex[e].pc = "awaitexec" => T.plan[e].conn # ConnOfKey(T.fl[f].key)
+  /\ \A g \in Flights(T) \ {f} : T.fl[g].st \in {"new", "sent"} => ConnOfKey(T.fl[g].key) # ConnOfKey(T.fl[f].key)
+  /\ \A e \in EX(T) : (T.plan[e].conn = ConnOfKey(T.fl[f].key) /\ T.ex[e].started /\ T.ex[e].pc # "done")
+                         => (T.ex[e].pc = "wait" /\ T.ex[e].cur = f)
 
 \* commands of the harness
 Commands(T) ==
@@ -82,8 +86,9 @@ Proj(T) ==
    nprep |-> [k \in {k \in DOMAIN T.nprep : T.nprep[k] > 0} |-> T.nprep[k]],
    quiet |-> Internal(T) = {}]
 
-GenInit == Init /\ last = NoAct /\ proj = Proj(S) /\ hist = <<>>
-Step(x) == LET T == Apply(S, x) IN S' = T /\ last' = x /\ proj' = Proj(T)
+GenInit == Init /\ last = NoAct /\ proj = Proj(S) /\ hist = <<>> /\ lost = {}
+Step(x) == LET T == Apply(S, x) IN /\ S' = T /\ last' = x /\ proj' = Proj(T)
+                                   /\ lost' = IF x.a = "PrepLost" THEN lost \cup {x.f} ELSE lost
 Choices == LET I == Internal(S) IN IF I # {} THEN I ELSE Commands(S)
 \* exhaustive search for the targets below (the behaviour is read from TLC's counterexample)
 GenNext == \E x \in Choices : Step(x) /\ hist' = hist
@@ -112,6 +117,12 @@ T_JoinFailing ==
   \E f \in Flights(S) : S.fl[f].st = "done_fail" /\ AllDone(S)
      /\ Cardinality({e \in EX(S) : f \in S.ex[e].waited /\ S.ex[e].res = "err_prepare"}) >= 2
      /\ \E e \in EX(S) : S.ex[e].res = "ok"
+\* (3b) the PREPARE is never answered (connection killed) while two executors wait on the flight: both get the
+\*      failure, nothing is remembered, a later execution prepares again (on the pool's new connection)
+T_LostWithWaiters ==
+  \E f \in lost : S.fl[f].st = "done_fail" /\ AllDone(S)
+     /\ Cardinality({e \in EX(S) : f \in S.ex[e].waited /\ S.ex[e].res = "err_prepare"}) >= 2
+     /\ \E e \in EX(S) : S.ex[e].res = "ok" /\ S.plan[e].conn = ConnOfKey(S.fl[f].key)
 \* (4) two executors receive UNPREPARED for the same id; the slower one must not evict the new entry
 T_UnpreparedTwice ==
   \E e1, e2 \in EX(S) : e1 # e2 /\ S.ex[e1].unprep # NoId /\ S.ex[e1].unprep = S.ex[e2].unprep
@@ -130,6 +141,7 @@ T_Arity == AllDone(S) /\ \E e \in EX(S) : S.ex[e].res = "err_arity"
 N_EvictInflight == ~T_EvictInflight
 N_FailRemovesNewer == ~T_FailRemovesNewer
 N_JoinFailing == ~T_JoinFailing
+N_LostWithWaiters == ~T_LostWithWaiters
 N_UnpreparedTwice == ~T_UnpreparedTwice
 N_UnpreparedInflight == ~T_UnpreparedInflight
 N_BatchThrash == ~T_BatchThrash
